@@ -35,6 +35,9 @@ def main():
                                          demo_with_fails=demo_with_fails, demo_without_ok=demo_without_ok))
     if not confirmed:
         return 1
+    # a seed made on top of a refactored tree: what is applied to /repo (and stored) is refactoring + seed in one patch
+    if os.environ.get('KEEP_SEED_REPO_PATCH'):
+        patch = os.environ['KEEP_SEED_REPO_PATCH']
     # official run against /repo itself
     assert sh('git -C /repo status --porcelain').stdout.strip() == '', '/repo not clean'
     r = sh('git -C /repo apply %s' % patch)
@@ -61,7 +64,10 @@ def main():
         shutil.copy(os.path.join(sdir, 'notes.md'), os.path.join(out, 'author_notes.md'))
     meta = {
         'name': name, 'breaks_property': prop,
-        'origin': 'fresh sub-agent given only the property text and a scratch git worktree of /repo (HEAD with the five fix: commits); nothing from /verif',
+        'origin': 'fresh sub-agent given only the property text and a scratch git worktree of /repo (HEAD with the five fix: commits); nothing from /verif'
+                  + (' - the scratch copy had the behaviour-preserving refactoring %s applied first; patch.diff is that '
+                     'refactoring plus the seeded change in one patch against /repo' % os.environ['KEEP_SEED_BASE']
+                     if os.environ.get('KEEP_SEED_BASE') else ''),
         'needs_to_manifest': needs,
         'confirmed_by_me': {
             'builds_in_three_feature_configs': builds_ok,
